@@ -648,12 +648,38 @@ CORPUS = [
 
 def run(ctx):
     rng = ctx.rng
-    nseq = ctx.n(1500, 30000)
+    nseq = ctx.n(1500, 20000)
     ctx.rule = ("seeded random sessions: tree shape (1/2 levels, 1-6 roots, 1-4 children, dimension 1-3, a few setting/tree "
                 "mismatches), then 6-40 operations chosen adaptively from extract (valid / invalid identifiers) / in-place and "
                 "re-binding mutations of positions, velocities, time stamps of live branches / consistent lift-and-commit and "
                 "stop-and-commit macros / insert of branches and single child cnodes / extract-active / extract-global; a class "
                 "is (operation, structural outcome) as registered with ctx.cls")
+    procs = start_real(ctx)
+    shrunk = {}
+
+    def flush(sessions):
+        # one model process per batch of sessions
+        all_lines = [l for _, (_, lines, _, _) in sessions for l in lines]
+        replies = ctx.model("store", all_lines)
+        pos = 0
+        for cfg, (ops, lines, impl, fails) in sessions:
+            model = replies[pos:pos + len(lines)]
+            pos += len(lines)
+            ctx.evaluations += len(ops)
+            for sig in sorted({f[0] for f in fails}):
+                what = next(f[1] for f in fails if f[0] == sig)
+                shrunk[sig] = shrunk.get(sig, 0) + 1
+                small = shrink(cfg, ops, sig) if shrunk[sig] <= 2 else ops
+                ctx.fail("store:" + sig, {"config": cfg, "ops": [list(o) for o in small]}, what)
+            d = compare(ctx, cfg, lines, impl, model)
+            if d is not None:
+                j, a, b = d
+                ctx.disagree("store.session", {"config": cfg, "requests": lines[:j + 1]}, a, b)
+            ctx.sample({"requests": lines[:4], "impl": [f"{s} | A {a} | {canon([x])[0]}" for s, a, x in impl[:2]],
+                        "model": model[:2]}, cap=2)
+            for (st, _, _), op in zip(impl[1:], ops):
+                ctx.cls(("op", op[0], st))
+
     sessions = []
     for cfg, ops in CORPUS:
         sessions.append((cfg, run_session(ctx, cfg, ops)))
@@ -663,31 +689,12 @@ def run(ctx):
         maxlen = rng.choice([6, 10, 16, 24, 40])
         sessions.append((cfg, run_session(ctx, cfg, None, rng, maxlen)))
         ctx.count(f"session:levels={cfg['levels']}" + ("" if cfg["consistent"] else ":setting-mismatch"))
+        if len(sessions) >= 400:
+            flush(sessions)
+            sessions = []
+    flush(sessions)
 
-    # one model process for all sessions
-    all_lines = [l for _, (_, lines, _, _) in sessions for l in lines]
-    replies = ctx.model("store", all_lines)
-    pos = 0
-    shrunk = {}
-    for cfg, (ops, lines, impl, fails) in sessions:
-        model = replies[pos:pos + len(lines)]
-        pos += len(lines)
-        ctx.evaluations += len(ops)
-        case = {"config": cfg, "ops": [list(o) for o in ops]}
-        for sig in sorted({f[0] for f in fails}):
-            what = next(f[1] for f in fails if f[0] == sig)
-            shrunk[sig] = shrunk.get(sig, 0) + 1
-            small = shrink(cfg, ops, sig) if shrunk[sig] <= 2 else ops
-            ctx.fail("store:" + sig, {"config": cfg, "ops": [list(o) for o in small]}, what)
-        d = compare(ctx, cfg, lines, impl, model)
-        if d is not None:
-            j, a, b = d
-            ctx.disagree("store.session", {"config": cfg, "requests": lines[:j + 1]}, a, b)
-        ctx.sample({"requests": lines[:4], "impl": [f"{s} | A {a} | {canon([x])[0]}" for s, a, x in impl[:2]], "model": model[:2]}, cap=2)
-        for (st, _, _), op in zip(impl[1:], ops):
-            ctx.cls(("op", op[0], st))
-
-    run_real(ctx)
+    collect_real(ctx, procs)
 
 
 def replay(ctx, case):
@@ -828,12 +835,12 @@ REAL_CONFIGS = [
 ]
 
 
-def run_real(ctx):
-    nev = ctx.n(400, 4000)
+def start_real(ctx):
+    nev = ctx.n(400, 3000)
     cfgs = [c for c in REAL_CONFIGS if os.path.exists(os.path.join(ctx.root, "jellyfysh", c))]
     if not cfgs:
         ctx.notes.append("real-run part skipped: none of the shipped configuration files found")
-        return
+        return []
     if ctx.quick:
         cfgs = cfgs[:3]
     script = os.path.join(os.path.dirname(ctx.root), "c13_runner.py")
@@ -848,7 +855,11 @@ def run_real(ctx):
         procs.append((c, subprocess.Popen([sys.executable, script, ctx.root, os.path.join(ctx.root, "jellyfysh", c), str(nev),
                                            str(ctx.rng.randrange(2 ** 31))], cwd=wd, env=env, stdout=subprocess.PIPE,
                                           stderr=subprocess.PIPE, text=True)))
-    for c, p in procs:
+    return [(c, p, nev) for c, p in procs]
+
+
+def collect_real(ctx, procs):
+    for c, p, nev in procs:
         try:
             out, err = p.communicate(timeout=ctx.n(120, 400))
         except subprocess.TimeoutExpired:
